@@ -188,7 +188,15 @@ pub fn fals_c18(rng: &mut Rng, thorough: bool, release: bool) -> Fals {
         let (lo, hi) = *rng.pick(&[(0.0f32, 1.0f32), (-1.0, 1.0), (2.0, 2.5), (-3.0, -3.0)]);
         let t = Tensor::random(s.clone(), lo, hi);
         let v = flat_of(&t);
-        f.check("random-tensor", t.shape == s && v.len() == shape_numel(&s) && v.iter().all(|x| *x >= lo && *x <= hi),
+        // the nested lengths must be the requested dimensions, level by level
+        let dims_ok = {
+            let mut tok: Tok = vec![];
+            enc_tensor_out(&mut tok, &t);
+            let mut want: Tok = vec![];
+            enc_tensor_out(&mut want, &tensor_of_shape(&s, &v));
+            tok == want
+        };
+        f.check("random-tensor", dims_ok && t.shape == s && v.len() == shape_numel(&s) && v.iter().all(|x| *x >= lo && *x <= hi),
                 "Tensor::random shape or range", || format!("shape {:?} range [{}, {}]", s, lo, hi));
     }
     f
